@@ -57,6 +57,14 @@ def run(c: Check):
             or not any(e["max_active"] >= e["stop"] - len(e["servers"]) for e in ev4):
         from vlib import Undecided
         raise Undecided("wiring harness vacuous: %s" % [(e["servers"], e["stop"], e["max_active"]) for e in ev4])
+    out5, _ = c.go_harness("internal/connlimiter", "^TestVerifC18CloseWaiter$", files=["c18close_test.go"],
+                           env={"VERIF_ROUNDS": 30 if th else 6}, timeout=600)
+    ev5 = read_ndjson(out5)
+    if len(ev5) < 6:
+        from vlib import Undecided
+        raise Undecided("close-waiter harness recorded %d rounds" % len(ev5))
+    nwire = len(ev4)
+    ev4 = ev4 + ev5
     p4 = os.path.join(c.scratch, "c18w.ndjson")
     from vlib import write_ndjson
     write_ndjson(p4, ev4)
@@ -65,10 +73,18 @@ def run(c: Check):
         from vlib import Undecided
         raise Undecided("wiring trace spec stuck")
     c.cov["traces_validated_against_impl"] += len(ev4) - len(r4.tuples("NONCONF"))
-    for e in ev4:
+    for e in ev4[:nwire]:
         c.count_case(("wiring", tuple(e["servers"]), e["stop"], e["resume"], e["opened"]), nontrivial=True)
+    for e in ev5:
+        c.count_case(("closewaiter", e["round"]), nontrivial=True)
     for t in r4.tuples("NONCONF"):
         e = ev4[int(t[0]) - 1]
+        if e["ev"] == "CloseWaiter":
+            c.violation({"kind": "close-waiter"},
+                        "C18 %s: a Close started while an Accept of the same listener had found the counter full and was about to "
+                        "wait: hook fired=%s, accept returned=%s (%s), Close returned=%s" % (
+                            t[1], e["fired"], e["released"], e["err"], e["close_returned"]), e)
+            continue
         c.violation({"kind": "wiring", "clause": re.findall(r'"(\w+)"', t[1])[0]},
                     "C18 %s: listeners built by dnssvc for servers %s around one limiter (stop %d, resume %d): %d connections "
                     "opened, %d served at the same time, %d served in the end" % (
